@@ -32,6 +32,9 @@ Finish with a short report: for each id, one line saying what was changed and wh
 
 Additional guidance for this round: {guide}
 """
+TWIN_TASK = 'You are helping to evaluate a verification tool for the Python library tracklib (GPS trajectory library). You work ONLY inside your own scratch git worktree of the repository: {wt}  (never touch /repo, never look at /verif). The file {wt}/_out/PROPERTY.txt holds the text of one semantic property of the library (id {pid}) together with the code locations ("anchors") it rests on. Line numbers quoted there may be off by a few dozen lines; locate code by name.\n\nYour job: produce TWO independent BEHAVIOUR-PRESERVING refactorings (ids {pid}-{r1} and {pid}-{r2}) of the code the property rests on - the kind of clean-up a maintainer really commits: rename locals, introduce or inline temporaries, extract a private helper function/method or inline one, restructure control flow (guard clauses, if/elif chains, while <-> for, early continue), replace index loops by direct iteration / comprehensions / enumerate / zip, hoist loop invariants, use equivalent library idioms (min/max/sum/any/all, slicing, tuple unpacking, f-strings), reorder independent statements, merge or split conditions (De Morgan), replace a<b by b>a, x += e by x = x + e, move constants to module/class level, change a mutated zero-initialised object into a single constructor call, etc. Each refactoring should touch the central functions named in the anchors (and may touch their helpers/callers), be substantial (roughly 15-60 changed lines, several different kinds of rewrite combined) and MUST NOT change observable behaviour for ANY input: same return values (bit-identical floats), same exceptions at the same points, same side effects on arguments and objects, same printed output. Do not fix bugs, do not change semantics in corner cases (empty inputs, NaN, ties, negative indices, aliasing of returned objects). The two refactorings must differ from each other in the functions they touch and/or in the kinds of rewrite.\n\nFor each id:\n  1. make sure the worktree is clean (git -C {wt} checkout -- tracklib).\n  2. edit the code under {wt}/tracklib/.\n  3. write {wt}/_out/<id>/equiv.py: a differential test, run as `cd {wt} && PYTHONPATH={wt} /venv/bin/python _out/<id>/equiv.py`, that loads the ORIGINAL version of each changed module from git (`git show HEAD:<path>`, compiled into a separate module object - take care of relative imports by setting __package__ and importing tracklib first) next to the refactored working-tree version, drives both with the same large set of inputs (exhaustive small cases + seeded random cases, corner cases included: empty / one element / NaN / ties / zero / negative / boundary values / error paths) and compares results, raised exception types, side effects on the inputs and printed output exactly (floats bit-for-bit). It must print the number of scenarios compared and exit 0 iff there is no mismatch (exit 1 otherwise). It must be deterministic.\n  4. run the test suite (about 40 s):  cd {wt} && PYTHONPATH={wt} /venv/bin/python -m pytest -q -p no:cacheprovider --timeout=900 --continue-on-collection-errors 2>&1 | tail -15\n     On the unmodified tree 243 tests pass and exactly 11 fail (testMapOn, testMapOnRaster, test_read_wfs, test_read_asc, test_read_ign_mnt, test_read_metadata_mnt, testWriteTwoTrackToManyGpx0AF/1AF/2AF, testCircleTrigo, testCircles); with your change it must be exactly the same set.\n  5. save: git -C {wt} diff -- tracklib > {wt}/_out/<id>/patch.diff ; and {wt}/_out/<id>/meta.json with keys: property, kind ("refactoring"), files (list), function (names of the functions changed), what_changed (list the rewrites), why_equivalent (the argument, corner cases included), suite ("243 passed / same 11 failed"), equiv ("PASS").\n  6. revert the worktree (git -C {wt} checkout -- tracklib; remove any new untracked file under tracklib/).\nPatches are each relative to the clean tree (not cumulative). Do not commit anything. Do not modify tests. Leave the worktree clean at the end.\n\nFinish with a short report: for each id, which functions were refactored and how.\n\nAdditional guidance for this round: {guide}\n'
+
+twins = ids and ids[0].startswith("R")
 os.makedirs(root, exist_ok=True)
 props = {json.loads(l)['id']: json.loads(l) for l in open('/verif/properties.jsonl')}
 for pid, d in sorted(props.items()):
@@ -46,5 +49,8 @@ for pid, d in sorted(props.items()):
     txt += ['  mechanism: %s (%s)' % (s['name'], s['where']) for s in a.get('mechanism', [])]
     txt.append('  observe at: ' + '; '.join(a.get('observe_at', [])))
     open(wt + '/_out/PROPERTY.txt', 'w').write('\n'.join(txt) + '\n')
+    if twins:
+        open(wt + '/_out/TASK.txt', 'w').write(TWIN_TASK.format(wt=wt, pid=pid, r1=ids[0], r2=ids[1], guide=guide))
+        continue
     open(wt + '/_out/TASK.txt', 'w').write(TASK.format(wt=wt, pid=pid, n={1: 'ONE', 2: 'TWO', 3: 'THREE', 4: 'FOUR'}.get(len(ids), str(len(ids))), ids=', '.join(ids), guide=guide))
 print('prepared', len(props), 'worktrees under', root)
